@@ -31,6 +31,8 @@ pub struct Report {
     pub failures: Vec<Failure>,
     pub extra: BTreeMap<String, Value>,
     pub max_samples: usize,
+    /// lines are recorded for the replay but not compared with the model (the model answers `-`)
+    pub uncompared: bool,
 }
 
 impl Report {
@@ -49,6 +51,7 @@ impl Report {
             failures: vec![],
             extra: BTreeMap::new(),
             max_samples: 3,
+            uncompared: false,
         }
     }
 
@@ -67,6 +70,7 @@ impl Report {
             failures: vec![],
             extra: BTreeMap::new(),
             max_samples: 3,
+            uncompared: false,
         }
     }
 
@@ -101,6 +105,7 @@ impl Report {
 
     pub fn begin_case(&mut self, name: &str) {
         self.case_name = name.to_string();
+        self.uncompared = false;
         self.case_start = self.ops.len();
         self.line(&format!("case {name}"), &format!("case {name}"));
         self.evaluations += 1;
@@ -109,6 +114,11 @@ impl Report {
     /// one operation line and the implementation's canonical answer to it
     pub fn line(&mut self, op: &str, out: &str) {
         debug_assert!(!op.contains('\n') && !out.contains('\n'));
+        if self.uncompared {
+            self.ops.push(format!("tx {op} => {out}"));
+            self.outs.push("-".to_string());
+            return;
+        }
         self.ops.push(op.to_string());
         self.outs.push(out.to_string());
     }
